@@ -8,6 +8,7 @@ import (
 	"bytes"
 	"context"
 	"fmt"
+	"io"
 	"os"
 	"path/filepath"
 	"sort"
@@ -15,11 +16,13 @@ import (
 	"sync"
 	"time"
 
+	"filippo.io/age"
 	"go4.org/jsonconfig"
 
 	"perkeep.org/pkg/blob"
 	"perkeep.org/pkg/blobserver"
 	_ "perkeep.org/pkg/blobserver/diskpacked"
+	_ "perkeep.org/pkg/blobserver/encrypt"
 	"perkeep.org/pkg/blobserver/files"
 	"perkeep.org/pkg/blobserver/localdisk"
 	"perkeep.org/pkg/blobserver/memory"
@@ -32,11 +35,27 @@ import (
 
 var ctxbg = context.Background()
 
+var (
+	encIDOnce sync.Once
+	encID     string
+)
+
+// slowRecv delays ReceiveBlob of the store it wraps (the lower-layer write of encrypt's ciphertext).
+type slowRecv struct{ yStorage }
+
+func (s slowRecv) ReceiveBlob(ctx context.Context, br blob.Ref, src io.Reader) (blob.SizedRef, error) {
+	if yLevel.Load() > 0 {
+		x := yrand()
+		time.Sleep(time.Duration(100+(x>>8)%1200) * time.Microsecond)
+	}
+	return s.yStorage.ReceiveBlob(ctx, br, src)
+}
+
 // hangAfter: a call that has not returned by then is recorded as hung (its goroutine is abandoned).
 const hangAfter = 8 * time.Second
 
 // StoreKinds are the storage configurations the concurrent programs run on.
-var StoreKinds = []string{"mem", "localdisk", "files", "diskpacked", "proxy", "shard"}
+var StoreKinds = []string{"mem", "memcache", "localdisk", "files", "diskpacked", "proxy", "proxymc", "shard", "encrypt"}
 
 type sut struct {
 	kind, cfg string
@@ -90,13 +109,40 @@ func buildStore(kind string, max int) (*sut, error) {
 	case "diskpacked":
 		s.sto, err = dp(s.sub("dp"), max)
 		s.cfg = fmt.Sprintf("diskpacked(maxFileSize=%d, yielding index)", max)
-	case "proxy":
+	case "encrypt":
+		// the encrypt store over two memory stores; the store of the encrypted blobs is slow (a receive sleeps)
+		kf := s.dir + "/age.key"
+		encIDOnce.Do(func() {
+			if id, e := age.GenerateX25519Identity(); e == nil {
+				encID = id.String()
+			}
+		})
+		if err = os.WriteFile(kf, []byte(encID+"\n"), 0o600); err == nil {
+			s.sto, err = blobserver.CreateStorage("encrypt", ld, jsonconfig.Obj{
+				"I_AGREE":   "that encryption support hasn't been peer-reviewed, isn't finished, and its format might change.",
+				"keyFile":   kf,
+				"blobs":     ld.Add(slowRecv{yStorage{&memory.Storage{}}}),
+				"meta":      ld.Add(yStorage{&memory.Storage{}}),
+				"metaIndex": map[string]any{"type": "c14yieldmem"},
+			})
+		}
+		s.cfg = "encrypt(blobs=memory with slow receives, meta=memory, yielding index)"
+	case "memcache":
+		// memory.NewCache: the LRU mode of the memory store (Fetch moves the entry to the LRU's front under
+		// the store's READ lock); the budget is never reached, so it is still a plain map
+		s.sto, s.cfg = memory.NewCache(1<<30), "memory.NewCache(1<<30)"
+	case "proxy", "proxymc":
 		var origin blobserver.Storage
 		origin, err = dp(s.sub("dp"), 400)
-		if err == nil {
-			s.sto = proxycache.New(int64(max), yStorage{&memory.Storage{}}, yStorage{origin})
+		var cache blobserver.Storage = &memory.Storage{}
+		cname := "memory"
+		if kind == "proxymc" {
+			cache, cname = memory.NewCache(1<<30), "memory.NewCache"
 		}
-		s.cfg = fmt.Sprintf("proxycache(max=%d, cache=memory, origin=diskpacked)", max)
+		if err == nil {
+			s.sto = proxycache.New(int64(max), yStorage{cache}, yStorage{origin})
+		}
+		s.cfg = fmt.Sprintf("proxycache(max=%d, cache=%s, origin=diskpacked)", max, cname)
 	case "shard":
 		var b2 blobserver.Storage
 		b2, err = dp(s.sub("dp"), 400)
@@ -244,7 +290,7 @@ func genProgram(r *hk.Rand, kind string, thorough bool) program {
 	switch kind {
 	case "diskpacked":
 		p.Max = []int{1, 150, 300, 1000}[r.Intn(4)]
-	case "proxy":
+	case "proxy", "proxymc":
 		p.Max = []int{40, 200, 1 << 20}[r.Intn(3)]
 	}
 	// overlapping pools: every client works on its own random subset; a hot blob is shared by all
@@ -252,6 +298,9 @@ func genProgram(r *hk.Rand, kind string, thorough bool) program {
 	wRecv, wFetch, wStat, wRm, wEnum := 34, 20, 14, 18, 14
 	if r.Chance(30) { // remove-heavy mix
 		wRecv, wRm = 28, 30
+	}
+	if kind == "encrypt" { // encrypt has no RemoveBlobs
+		wRecv, wFetch, wRm = 40, 32, 0
 	}
 	for c := 0; c < nClients; c++ {
 		var mine []int
